@@ -197,6 +197,10 @@ func charaterState(l *lexer) stateFn {
 		switch r {
 		case '\'':
 			value += "'"
+			if l.next() != '\'' {
+				l.error("just can quote single char")
+				return nil
+			}
 			l.emitValue(Charater, value)
 		default:
 			l.error("not correct translate")
